@@ -20,9 +20,21 @@ THEOREMS = [
     "Ural.Props.C11.variant_same_string_same_key",
     "Ural.Props.C11.variant_store_then_query_hits",
     "Ural.LruTrie.unserialize_serialize",
+    # the variant clause with the factorisation PROVED (Props/C11Whole.lean; C07's string-level theorems)
+    "Ural.Props.C11.store_then_query_hits_of_eq",
+    "Ural.Props.C11.variant_same_string_same_key_canon",
+    "Ural.Props.C11.variant_store_then_query_hits_canon",
+    "Ural.Props.C11.variant_same_string_same_key_norm",
+    "Ural.Props.C11.variant_same_print_same_stems_norm",
+    "Ural.Props.C11.variant_store_then_query_hits_norm",
+    "Ural.Props.C11.variant_same_string_same_key_fp",
+    "Ural.Props.C11.variant_store_then_query_hits_fp",
+    "Ural.Props.C07.canonicalized_stems_factor",
+    "Ural.Props.C07.normalized_stems_factor",
+    "Ural.Props.C07.fingerprinted_stems_factor",
 ]
 TABLE_OBLIGATIONS = ["Ural.Props.C11.splitter_tags_cover"]
-EXTRA_IMPORTS = ["UralModel.Lemmas.LruTrie"]
+EXTRA_IMPORTS = ["UralModel.Lemmas.LruTrie", "UralModel.Props.C11Whole"]
 RULE = (
     "Three kinds of cases. (1) history: a configuration (one of LRUTrie / CanonicalizedLRUTrie / "
     "NormalizedLRUTrie / FingerprintedLRUTrie x suffix_aware x variant options) and a sequence of "
@@ -53,7 +65,7 @@ TRUSTED = [
     "hand-written Lean models UralModel/Model/LruTrie.lean (ural/lru/trie.py, ural/lru/serialization.py) and UralModel/Model/TrieDict.lean, tied to the code by differential execution of whole histories (this run)",
     "the tokenisers (lru_stems, canonicalized_/normalized_/fingerprinted_lru_stems: properties C12/C07/C01-C06) are a PARAMETER of the model and of every theorem: the driver receives, for set/match, the stems that the real class's tokenize() returned; the oracle uses the module-level stems functions, so a wrong tokenize hook is still seen",
     "SERIALIZED_LRU_SPLITTER_RE is regenerated (tag letters read off the compiled pattern, shape checked) into Gen/LruSplitter.lean; re.split's leftmost non-overlapping discipline is hand-modelled (splitGo)",
-    "the factorisation hypothesis of variant_same_string_same_key (tokenize_X u = stems (X u)) is not proved for the real variants: it is tested on generated groups of URLs with equal X-image",
+    "the variant clause: the parametric theorems (variant_same_string_same_key, variant_store_then_query_hits) keep the factorisation tokenize_X u = stems (X u) as a hypothesis; it is PROVED for the three model tokenisers of Model/LruVariants.lean with the modelled parser inside (canonicalized_/normalized_/fingerprinted_stems_factor, property C07) and the whole-string models of canonicalize_url / normalize_url / fingerprint_url, on the decidable class of C07's string-level theorems, so variant_*_{canon,norm,fp} take membership of both URLs in that class instead; those model tokenisers / URL functions are tied to the real ones by C07's and C01-C06's correspondence (c07_stems with model_parser, normalize_whole, fingerprint_whole, canonicalize_whole), the hand parser is compared with CPython, not proved equal; the idna decoder is abstract (PunyClean, evaluated on the real decoder by C07/C01); outside the class the clause is tested on generated groups of URLs with equal X-image",
     "iteration order of TrieDict.values() is not modelled (compared sorted)",
 ]
 ASSUMPTIONS = [
@@ -61,8 +73,11 @@ ASSUMPTIONS = [
     "values are compared by JSON encoding",
 ]
 UNPROVED = (
-    "variant factorisation (tokenize_X = stems o X as strings) is a hypothesis of the variant theorems; "
-    "explored by the oracle on groups of URLs with the same X-image, not proved"
+    "variant clause: proved (variant_same_string_same_key_{canon,norm,fp}, variant_store_then_query_hits_{canon,norm,fp}) for pairs of URLs of an explicit decidable class, the factorisation hypothesis hfac being discharged by "
+    "C07's string-level theorems — normalize: the cleaned, resolved URL is a string [letters:// | // | nothing][userinfo@]host[:port][/path][?query][#fragment] with a host that is no IP literal and a port text that is a port, "
+    "every option set of normalize_url, result printed unambiguously (HasNet: always with the default strip_protocol=True); fingerprint: the same for url.lower(), with strip_suffix a host of plain characters; "
+    "canonicalize (default options only): the cleaned URL parses, no bracket in its netloc, canonical netloc not empty. NOT proved: URLs outside these classes (IP-literal hosts, userinfo with brackets, relative references, "
+    "CanonicalizedLRUTrie with non-default options), where the clause is explored by the oracle on groups of URLs with the same X-image; the tokenisers of the model are total ([] where the real one raises: outside the class)"
 )
 
 # ---------------------------------------------------------------------------------------
